@@ -14,12 +14,13 @@ import (
 // ping run alongside.  Every message carries (stream id, index).
 
 type streamRun struct {
-	id      byte
-	got     [][]byte
-	wrote   [][]byte
-	errs    []string
-	fin     bool
-	openErr error
+	id       byte
+	got      [][]byte
+	wrote    [][]byte
+	errs     []string
+	fin      bool
+	openErr  error
+	badFirst bool
 }
 
 func streamMsg(id byte, j int) []byte { return mkPayload(id, byte(j), 6+3*j+int(id)) }
@@ -32,6 +33,11 @@ func (r *streamRun) run(conn *rpc.Conn, w *World, m int, writeFirst bool) {
 	if err != nil {
 		r.openErr = err
 		return
+	}
+	if r.badFirst {
+		// a value the body codec cannot encode: this write fails locally, the stream itself is not affected
+		bad := 42
+		st.WriteMessage(&bad)
 	}
 	read := func(n int) bool {
 		for i := 0; i < n; i++ {
@@ -117,8 +123,9 @@ func c09BodyR(nstreams int, modes []sysMode, reduced bool) func(x *X) {
 			vs.Quiesce()
 		}
 		var runs []*streamRun
+		bad := !reduced && x.Choose(2) == 1
 		for k := 0; k < nstreams; k++ {
-			r := &streamRun{id: byte(0x31 + k)}
+			r := &streamRun{id: byte(0x31 + k), badFirst: bad && k == 0}
 			runs = append(runs, r)
 			vs.GoNamed(fmt.Sprintf("stream%d", k), func() { r.run(s.conn, s.w, m, writeFirst) })
 		}
